@@ -62,6 +62,11 @@ CHECKS = {
    text="Store-level replication in one bubble: a primary store builds a history with concurrent committers (tx metadata, empty values, header v0/v1, optionally truncated so that old transactions are exported by digest); the messages are ExportTx(i); 1-3 replica worker tasks deliver them to ReplicateTx out of order inside the concurrency window, duplicated, retried after (simulated) time-outs, with and without integrity-check skipping, interleaved with altered copies (bit flips, truncation, trailer and length-field edits, appended bytes), replica close/reopen and DiscardPrecommittedTxsSince. Oracle: no panic; an altered message is rejected or leaves exactly the primary's transaction; duplicates report 'already committed'; once faults stop the replica reaches the primary's frontier (liveness bound); every replicated transaction has the primary's id, header, entries, values (digests when truncated) and Alh; the replica's index answers like the model of the primary's history and its dual proofs verify against the primary's states.",
    note="Layer B of the design (pkg/database + the real TxReplicator over a simulated network, synchronous replication acks and their durability) is NOT built: the 'primary reports committed only after the required replicas durably hold it' clause is not decided by this check.",
    technique="deterministic simulation: seeded delivery schedules + altered-message injection vs primary ledger"),
+ "C01": dict(
+   level="exploration", design="DESIGN.md §7 C01",
+   text="An honest store builds histories under the simulator (concurrent committers, tx metadata, header v0/v1, deletes, restarts between requests). For sampled pairs trusted tx i <= proven tx j the client-side verification is run on the server's response: DualProof and DualProofV2 must verify against the states acknowledged to the client (completeness) and the per-entry inclusion proofs must verify against the entries hash. A tampering adversary on the response path then alters one aspect per trial — claimed states and ids, every header field of source/target, inclusion/consistency/last-inclusion terms (dropped, extra, flipped, swapped, duplicated), TargetBlTxAlh, linear and linear-advance proofs, swapped source/target, entry key/value/position — and a forked server (shares a prefix of the history, then diverges) answers instead of the honest one. Oracle: acceptance implies truth — a response that verifies must claim exactly the history's states with the new one extending the trusted one; an altered entry must never verify.",
+   note="Store-level verifiers (the same functions pkg/client calls); the pkg/database Verifiable* assembly, pkg/client's verifiedGet flow (references, returned key), SQL/document proofs, state signatures and histories whose binary linking lags by more than one tx are NOT covered by this check.",
+   technique="deterministic simulation: seeded histories + tampered/forked response injection vs ledger (acceptance implies truth)"),
 }
 
 NOT_APPLICABLE = [
